@@ -130,6 +130,8 @@ def guard_of(upd):
 def run(ctx):
     prog = ctx.prog
     f = prog.method("energy::indicators::n50::N50Data", "convert::From", "from")
+    from ..loops import check_no_early_exit
+    check_no_early_exit(ctx, "c09.loop", prog, f, "n50")
     root = Scope(prog, f)
     bt = [v["name"] for v in prog.adt("bemodel::types::common::BoundaryType")["variants"]]
     filt = [ch for (b, t, ch) in root.children() if ch.via[0] == "filter" and (ch.via[1].source_name() or "").endswith("props.walls")]
